@@ -177,3 +177,31 @@ def mtl_reference(prog2: gen.MTLProgram, agg):
 def mtl_all_tensors(prog: gen.MTLProgram) -> list:
     """Every tensor of an MTL program whose state is observed (leaves first, then features and losses)."""
     return prog.all_leaves() + list(prog.features) + list(prog.losses)
+
+
+# ----------------------------------------------------------------------------- ties (excluded by the properties)
+
+
+def selection_ambiguous(agg_spec: dict, J: torch.Tensor) -> bool:
+    """True when the aggregator's result on J is decided by a tie (or a near-tie at rounding level), so that two
+    Jacobians equal up to rounding may legitimately give different results.  Only Krum selects rows by comparing
+    scores: with n - f - 2 == 1 neighbours the two closest rows ALWAYS have the same score (their mutual distance),
+    so n_selected == 1 is a structural tie there.  Scores as in Blanchard et al. (sum of the distances to the
+    n - f - 2 closest other rows), computed independently of torchjd in float64."""
+    if agg_spec.get("name") != "Krum":
+        return False
+    f, k = agg_spec.get("f", 0), agg_spec.get("k", 1)
+    M = J.detach().to(torch.float64)
+    m = M.shape[0]
+    if k >= m:
+        return False
+    D = torch.cdist(M, M, compute_mode="donot_use_mm_for_euclid_dist")
+    n_closest = m - f - 2
+    scores = []
+    for i in range(m):
+        others = sorted(float(D[i, j]) for j in range(m) if j != i)
+        scores.append(sum(others[:n_closest]))
+    s = sorted(scores)
+    gap = s[k] - s[k - 1]
+    rel = 1e-6 if J.dtype == torch.float64 else 1e-3
+    return gap <= rel * max(1.0, s[k])
